@@ -5,6 +5,12 @@ ROOT = os.path.dirname(os.path.dirname(os.path.abspath(__file__)))
 
 # id -> (technique, level text, level note, design ref)
 CLAIMED = {
+ "C01": ("model-based property testing (proptest): generated installations + query histories vs. a stateless lookup model with own JAMCRC; reversed-history metamorphic replay; covering sweep over (category, expansion, chunk, platform)",
+         "Generated-input search over archive layouts and query histories; every answer of exists/find_offset/extract compared with an independent reference model; extract proves dat file and offset through content that embeds its own location.",
+         "Trusts the harness's SqPack encoder (written from the format) and CRC; CRC collisions between generated paths ignored.", "5/C01"),
+ "C02": ("round-trip property testing (proptest): own SqPack/deflate (miniz_oxide) encoder -> Physis extraction -> byte comparison / header validity predicate",
+         "Generated-input search over entry kinds, block splits and per-block raw/stored/fixed/dynamic deflate streams; extracted bytes compared with the packed content (model entries through a validity predicate over the synthesised header).",
+         "Trusts miniz_oxide as an independent deflater (self-checked) and the harness's entry encoder.", "5/C02"),
  "C11": ("property-based differential testing (proptest) against a textbook Blowfish with pi-derived tables; published vectors enumerated",
          "Generated-input search: thousands of random keys/messages per run compared block-by-block with an independent reference whose tables are computed from pi at run time; held on everything explored, not a proof.",
          "Trusts the harness's reference Blowfish and pi computation (self-checked against Schneier's vectors and table end words at start-up).", "5/C11"),
